@@ -3,7 +3,7 @@ from .. import common, parsing
 from . import c01
 
 LEVEL = "proof"
-EXTRA_LEAN_MODULES = ["Luqum.Props.C01b", "Luqum.Props.GenGlue", "Luqum.Props.GenPrint", "Luqum.Props.GenHandle"]     # positions without the KF1 hypothesis (parse_laid_exact, node_slices_exact)
+EXTRA_LEAN_MODULES = ["Luqum.Props.C01b", "Luqum.Props.GenGlue", "Luqum.Props.GenPrint", "Luqum.Props.GenHandle", "Luqum.Props.GenActions"]     # positions without the KF1 hypothesis (parse_laid_exact, node_slices_exact)
 RULE = c01.RULE + "; every node of every accepted tree is checked (4 clauses)"
 ASSUMPTIONS = c01.ASSUMPTIONS
 TRUSTED = c01.TRUSTED
